@@ -449,9 +449,11 @@ class _Plan:
         self.k_is_method = entry.get("class") is not None
         self.n_is_method = nd.kind == "method"
         self.kname, self.nname = kfn.name, nd.node.name
+        self.keep_defaults = False      # near-match restoration keeps the current function's own defaults
 
-    def k_call(self, bound: Dict[str, ast.expr], recv_hint: Optional[ast.expr], at) -> Optional[ast.Call]:
-        """the call of K equivalent to a call of N whose actuals are `bound` (N parameter -> expression)"""
+    def k_call(self, bound: Dict[str, ast.expr], recv_hint: Optional[ast.expr], at, partial: bool = False) -> Optional[ast.Call]:
+        """the call of K equivalent to a call of N whose actuals are `bound` (N parameter -> expression); partial: the actuals of a functools.partial
+        (what is missing is supplied later)"""
         u = self.uni
         kdef, ndef = _defaults(self.kfn), _defaults(self.nd.node)
         kparams = u.kparams
@@ -488,9 +490,12 @@ class _Plan:
             if e is None:
                 dn = ndef.get(np_) if np_ is not None else None
                 dk = kdef.get(kp)
+                if self.keep_defaults:
+                    gap = True
+                    continue
                 if dn is not None and (dk is None or ast.dump(dn) != ast.dump(dk)):
                     e = copy.deepcopy(dn)
-                elif dk is None and np_ is not None:
+                elif dk is None and np_ is not None and not partial:
                     return None
                 else:
                     gap = True
@@ -555,8 +560,74 @@ def _references(pkg, plan: _Plan):
                     if not hit:
                         continue
                     kind = "call" if (isinstance(parent, ast.Call) and fld == "func") else "value"
+                    if kind == "value" and isinstance(parent, ast.Call) and fld == "args" and i == 0 and _is_partial(parent, m):
+                        kind = "partial"
                     out.append((m, parent, fld, i if isinstance(val, list) else None, v, kind))
     return out
+
+
+def _is_partial(call: ast.Call, m) -> bool:
+    f = call.func
+    if isinstance(f, ast.Name) and f.id == "partial":
+        return m.imports.get("partial") == ("functools", "partial")
+    return isinstance(f, ast.Attribute) and f.attr == "partial" and isinstance(f.value, ast.Name) and f.value.id == "functools"
+
+
+def _rewrite_ref(plan, parent, v, kind, pure):
+    """-> ('rename', None) | ('call', new Call) | ('partial', new Call standing for the actuals) | None (cannot be re-written)"""
+    if kind == "value":
+        return ("rename", None) if pure else None
+    if pure:
+        return ("rename", None)
+    recv_hint = v.value if isinstance(v, ast.Attribute) else None
+    if kind == "partial":
+        fake = ast.Call(func=v, args=list(parent.args[1:]), keywords=list(parent.keywords))
+        bound = _bind_call(plan.nd.node, fake, skip_first=plan.n_is_method)
+        if bound is None:
+            return None
+        kc = plan.k_call(bound, recv_hint, parent, partial=True)
+        return None if kc is None else ("partial", kc)
+    bound = _bind_call(plan.nd.node, parent, skip_first=plan.n_is_method)
+    if bound is None:
+        return None
+    kc = plan.k_call(bound, recv_hint, parent)
+    return None if kc is None else ("call", kc)
+
+
+def _apply_ref(plan, parent, v, how, kc, pure):
+    if how == "rename":
+        if isinstance(v, ast.Attribute):
+            v.attr = plan.kname
+        else:
+            v.id = plan.kname
+        if isinstance(parent, ast.Call) and parent.func is v and pure:
+            for kw in parent.keywords:
+                if kw.arg is not None and kw.arg in plan.uni.rev:
+                    kw.arg = plan.uni.rev[kw.arg]
+    elif how == "call":
+        parent.func, parent.args, parent.keywords = kc.func, kc.args, kc.keywords
+    elif how == "partial":
+        parent.args = [kc.func] + list(kc.args)
+        parent.keywords = kc.keywords
+
+
+def _fix_imports(pkg, plan, hm):
+    if not plan.n_is_method:
+        for m in pkg.values():
+            imp = m.imports.get(plan.nname)
+            if imp is not None and imp == (plan.nmod.modname, plan.nname):
+                _drop_import(m, plan.nname)
+    if not plan.k_is_method:
+        for m in pkg.values():
+            if m is hm:
+                imp = m.imports.get(plan.kname)
+                if imp is not None:
+                    _drop_import(m, plan.kname)
+                continue
+            uses = any(isinstance(x, ast.Name) and x.id == plan.kname and isinstance(x.ctx, ast.Load) for x in ast.walk(m.tree))
+            if uses and m.imports.get(plan.kname) != (hm.modname, plan.kname):
+                _drop_import(m, plan.kname)
+                _add_import(m, plan.kname, hm.modname)
 
 
 def _inside(node, root) -> bool:
@@ -642,26 +713,11 @@ def _restore_functions_once(pkg, sources) -> bool:
         for (m, parent, fld, idx, v, kind) in refs:
             if _inside(v, plan.nd.node):
                 continue        # recursion: the restored body already spells it with K's name
-            if kind == "value":
-                if not pure:
-                    ok = False
-                    break
-                rewrites.append((m, parent, fld, idx, v, None))
-                continue
-            call = parent
-            if pure:
-                rewrites.append((m, parent, fld, idx, v, None))
-                continue
-            recv_hint = v.value if isinstance(v, ast.Attribute) else None
-            bound = _bind_call(plan.nd.node, call, skip_first=plan.n_is_method)
-            if bound is None:
+            rw = _rewrite_ref(plan, parent, v, kind, pure)
+            if rw is None:
                 ok = False
                 break
-            kc = plan.k_call(bound, recv_hint, call)
-            if kc is None:
-                ok = False
-                break
-            rewrites.append((m, parent, fld, idx, v, kc))
+            rewrites.append((parent, v, rw[0], rw[1]))
         if not ok or plan.nd.node not in plan.nd.container:
             continue
         # 1. the definition: K's text with N's positions
@@ -675,36 +731,10 @@ def _restore_functions_once(pkg, sources) -> bool:
         plan.nd.container.remove(plan.nd.node)
         container.append(new_def)
         # 2. the references
-        for (m, parent, fld, idx, v, kc) in rewrites:
-            if kc is None:
-                if isinstance(v, ast.Attribute):
-                    v.attr = plan.kname
-                else:
-                    v.id = plan.kname
-                if isinstance(parent, ast.Call) and fld == "func" and pure:
-                    for kw in parent.keywords:
-                        if kw.arg is not None and kw.arg in plan.uni.rev:
-                            kw.arg = plan.uni.rev[kw.arg]
-            else:
-                call = parent
-                call.func, call.args, call.keywords = kc.func, kc.args, kc.keywords
+        for (parent, v, how, kc) in rewrites:
+            _apply_ref(plan, parent, v, how, kc, pure)
         # 3. imports (module-level functions only)
-        if not plan.n_is_method:
-            for m in pkg.values():
-                imp = m.imports.get(plan.nname)
-                if imp is not None and imp == (plan.nmod.modname, plan.nname):
-                    _drop_import(m, plan.nname)
-        if not plan.k_is_method:
-            for m in pkg.values():
-                if m is hm:
-                    imp = m.imports.get(plan.kname)
-                    if imp is not None:
-                        _drop_import(m, plan.kname)
-                    continue
-                uses = any(isinstance(x, ast.Name) and x.id == plan.kname and isinstance(x.ctx, ast.Load) for x in ast.walk(m.tree))
-                if uses and m.imports.get(plan.kname) != (hm.modname, plan.kname):
-                    _drop_import(m, plan.kname)
-                    _add_import(m, plan.kname, hm.modname)
+        _fix_imports(pkg, plan, hm)
         what = []
         if plan.nname != plan.kname:
             what.append("renamed")
@@ -1051,3 +1081,231 @@ def restore_nested_names(m, sources: Dict[str, dict]) -> None:
     if changed:
         m.defs = enumerate_defs(m.modname, m.tree)
         m.new = [d for d in m.defs if d.qual not in m.known]
+
+
+# =====================================================================================================================
+# successor mode: a reference function that was renamed / moved / turned into a function AND edited
+# =====================================================================================================================
+
+def _tokens(fn) -> List[str]:
+    out = []
+    for st in _strip_doc(fn.body):
+        for n in ast.walk(st):
+            t = type(n).__name__
+            if isinstance(n, ast.Attribute):
+                t += ":" + n.attr
+            elif isinstance(n, ast.Constant):
+                t += ":" + repr(n.value)[:24]
+            elif isinstance(n, ast.Name) and isinstance(n.ctx, ast.Load):
+                t += ":" + n.id
+            out.append(t)
+    return out
+
+
+def _similarity(kfn, nfn) -> float:
+    import difflib
+    a, b = _tokens(kfn), _tokens(nfn)
+    if not a or not b:
+        return 0.0
+    return difflib.SequenceMatcher(None, a, b, autojunk=False).ratio()
+
+
+def restore_successors(pkg, sources: Dict[str, dict]) -> None:
+    """What is left after the exact passes: a reference function K is gone and no current function unifies with it, but one function N that is not on
+    the reference tree is clearly its successor (by far the most similar body among the new functions, or the same name in another module). N is *not*
+    replaced by reference code - it is its own, current body that is put under K's name and home (parameters and locals that the matching statements
+    identify are given K's names, `p` that stands for `self.attr` is written as `self.attr`, calls are re-written) so that the rules anchored at K
+    judge the code as it is now. An edit made together with a rename / move is thereby seen by the same rules as an edit of the unmoved function."""
+    import difflib
+    have = {d.qual for m in pkg.values() for d in m.defs}
+    known_names = {q.rsplit(":", 1)[1].rsplit(".", 1)[-1] for q in sources}
+    vanished = [(q, e) for q, e in sources.items() if q not in have and ".<locals>." not in q]
+    if not vanished:
+        return
+    new_defs = [(m, d) for m in pkg.values() for d in m.new if d.kind in ("module", "method") and d.node in d.container]
+    if not new_defs:
+        return
+    scores = []
+    for qual, entry in vanished:
+        kfn = _parse_src(entry)
+        if kfn is None or _home(pkg, qual, entry) is None:
+            continue
+        if len(_tokens(kfn)) < 12:
+            continue        # too small to recognise by similarity
+        for m, d in new_defs:
+            if type(d.node) is not type(kfn):
+                continue
+            if bool(_has_yield(d.node)) != bool(_has_yield(kfn)):
+                continue
+            sc = _similarity(kfn, d.node)
+            if d.node.name == kfn.name:
+                sc += 0.25
+            scores.append((sc, qual, id(d), m, d, entry, kfn))
+    scores.sort(key=lambda t: -t[0])
+    used_k, used_n = set(), set()
+    changed = False
+    for sc, qual, did, m, d, entry, kfn in scores:
+        if qual in used_k or did in used_n:
+            continue
+        if sc < 0.62:
+            break
+        # margin over the best alternative for this K and for this N
+        alt_k = max([s2 for (s2, q2, d2, *_r) in scores if q2 == qual and d2 != did and d2 not in used_n] + [0.0])
+        alt_n = max([s2 for (s2, q2, d2, *_r) in scores if d2 == did and q2 != qual and q2 not in used_k] + [0.0])
+        if sc - max(alt_k, alt_n) < 0.12:
+            continue
+        if d.node.name != kfn.name and d.node.name in known_names:
+            continue
+        if _apply_successor(pkg, qual, entry, kfn, m, d):
+            used_k.add(qual)
+            used_n.add(did)
+            changed = True
+            m.log.append(f"{d.qual} is taken as the successor of the reference function {qual} (similarity {sc:.2f}; its own body is analysed under the reference name)")
+            _refresh(pkg)
+    if changed:
+        _refresh(pkg)
+
+
+def _has_yield(fn) -> bool:
+    todo = list(fn.body)
+    while todo:
+        n = todo.pop()
+        if isinstance(n, (ast.Yield, ast.YieldFrom)):
+            return True
+        if isinstance(n, (ast.FunctionDef, ast.AsyncFunctionDef, ast.Lambda, ast.ClassDef)):
+            continue
+        todo.extend(ast.iter_child_nodes(n))
+    return False
+
+
+def _apply_successor(pkg, qual, entry, kfn, nmod, nd: Def) -> bool:
+    import difflib
+    home = _home(pkg, qual, entry)
+    if home is None:
+        return False
+    hm, container = home
+    if any(isinstance(n, (ast.FunctionDef, ast.AsyncFunctionDef)) and n.name == kfn.name for n in container):
+        return False
+    k_is_method = entry.get("class") is not None
+    n_is_method = nd.kind == "method"
+    kbody, nbody = _strip_doc(kfn.body), _strip_doc(nd.node.body)
+    u = Unifier(kfn, k_is_method, "func", nname=nd.node.name, nparams=_params(nd.node), nlocals=_stored(nd.node), n_is_method=n_is_method)
+    u.nfn = nd.node
+    # statement by statement, aligned on the statement kinds; what does not unify is skipped (its names stay as they are)
+    sm = difflib.SequenceMatcher(None, list(_shape(kbody)), list(_shape(nbody)), autojunk=False)
+    for tag, i1, i2, j1, j2 in sm.get_opcodes():
+        if tag != "equal":
+            continue
+        for ks, ns in zip(kbody[i1:i2], nbody[j1:j2]):
+            snap = (dict(u.map), dict(u.rev), dict(u.attr_map), dict(u.attr_rev), list(u.rec_calls), len(u.pairs), dict(u.assume))
+            if not u.u(ks, ns):
+                u.map, u.rev, u.attr_map, u.attr_rev, u.rec_calls, u.assume = snap[0], snap[1], snap[2], snap[3], snap[4], snap[6]
+                del u.pairs[snap[5]:]
+    u.rec_calls = []
+    # parameters: what the statements identified, then equal names
+    nparams = _params(nd.node)
+    for kp in u.kparams:
+        if kp not in u.map and kp in nparams and kp not in u.rev:
+            u.map[kp] = kp
+            u.rev[kp] = kp
+    if k_is_method and u.kself is not None and not n_is_method and u.kself not in u.map:
+        # what the receiver became, from the call sites: a parameter that is handed `<obj>.attr` at every call stands for `self.attr` when K reads that attribute
+        probe = _Plan(qual, entry, kfn, nd, nmod, u)
+        k_attrs = {x.attr for x in ast.walk(kfn) if isinstance(x, ast.Attribute) and isinstance(x.value, ast.Name) and x.value.id == u.kself}
+        seen: Dict[str, Set[str]] = {}
+        n_calls = 0
+        for (m, parent, fld, idx, v, kind) in _references(pkg, probe):
+            if _inside(v, nd.node) or kind not in ("call", "partial"):
+                continue
+            fake = parent if kind == "call" else ast.Call(func=v, args=list(parent.args[1:]), keywords=list(parent.keywords))
+            bound = _bind_call(nd.node, fake, skip_first=False)
+            if bound is None:
+                continue
+            n_calls += 1
+            for pn, e in bound.items():
+                seen.setdefault(pn, set()).add(e.attr if isinstance(e, ast.Attribute) and isinstance(e.value, (ast.Name, ast.Attribute)) else "?")
+        for pn, attrs in seen.items():
+            if len(attrs) == 1 and "?" not in attrs and pn not in u.rev and pn not in u.attr_rev:
+                at = next(iter(attrs))
+                if at in k_attrs and at not in u.attr_map:
+                    u.attr_map[at] = pn
+                    u.attr_rev[pn] = at
+        if not u.attr_map:
+            return False        # no way to tell what the receiver became
+    if any(u.map.get(kp) is not None and u.map[kp] not in u.nparams for kp in u.kparams):
+        return False
+    plan = _Plan(qual, entry, kfn, nd, nmod, u)
+    plan.keep_defaults = True
+    pure = _same_signature(plan) and not u.attr_map
+    rewrites = []
+    for (m, parent, fld, idx, v, kind) in _references(pkg, plan):
+        if _inside(v, nd.node):
+            continue
+        rw = _rewrite_ref(plan, parent, v, kind, pure)
+        if rw is None:
+            return False
+        rewrites.append((parent, v, rw[0], rw[1]))
+    # the definition: N's own code under K's name, with the identified names spelled as in K
+    node = nd.node
+    ren = {n: k for n, k in u.rev.items() if n != k}
+    # a renaming target must not collide with another name of N
+    names_of_n = _stored(node) | set(nparams)
+    ren = {n: k for n, k in ren.items() if k not in (names_of_n - set(ren))}
+    attr_params = dict(u.attr_rev) if (k_is_method and not n_is_method) else {}
+    kself = u.kself or "self"
+
+    class T(ast.NodeTransformer):
+        def visit_Name(self, x):
+            if x.id in attr_params and isinstance(x.ctx, ast.Load):
+                return ast.copy_location(ast.Attribute(value=ast.copy_location(ast.Name(id=kself, ctx=ast.Load()), x), attr=attr_params[x.id], ctx=ast.Load()), x)
+            if x.id in ren:
+                x.id = ren[x.id]
+            elif x.id == plan.nname and not n_is_method and not k_is_method:
+                x.id = plan.kname
+            return x
+
+        def visit_arg(self, x):
+            if x.arg in ren:
+                x.arg = ren[x.arg]
+            return x
+
+        def visit_ExceptHandler(self, x):
+            if x.name and x.name in ren:
+                x.name = ren[x.name]
+            self.generic_visit(x)
+            return x
+    node.body = [T().visit(st) for st in node.body]
+    a = node.args
+    allargs = a.posonlyargs + a.args + a.kwonlyargs
+    for x in allargs:
+        if x.arg in ren:
+            x.arg = ren[x.arg]
+    if attr_params:
+        a.args = [x for x in a.args if x.arg not in attr_params]
+        kw = [(x, dv) for x, dv in zip(a.kwonlyargs, a.kw_defaults) if x.arg not in attr_params]
+        a.kwonlyargs, a.kw_defaults = [x for x, _ in kw], [dv for _, dv in kw]
+        a.args.insert(0, ast.copy_location(ast.arg(arg=kself, annotation=None), node))
+        # defaults of dropped positional parameters: positional defaults align to the tail, dropped parameters had none in the cases accepted
+        a.defaults = a.defaults[-len([x for x in a.args[1:]]):] if a.defaults and len(a.defaults) > len(a.args) - 1 else a.defaults
+    # parameter order: K's order for the parameters K has, the rest behind
+    if not n_is_method or k_is_method:
+        korder = [p for p in u.kparams]
+        pos = a.posonlyargs + a.args
+        defaults = [None] * (len(pos) - len(a.defaults)) + list(a.defaults)
+        dmap = {x.arg: dv for x, dv in zip(pos, defaults)}
+        byname = {x.arg: x for x in a.args}
+        new_args = [byname[p] for p in korder if p in byname] + [x for x in a.args if x.arg not in korder]
+        # keep the order only if defaults stay a suffix
+        nd_list = [dmap.get(x.arg) for x in new_args]
+        first_def = next((i for i, dv in enumerate(nd_list) if dv is not None), len(nd_list))
+        if all(dv is not None for dv in nd_list[first_def:]) and not a.posonlyargs:
+            a.args = new_args
+            a.defaults = [dv for dv in nd_list if dv is not None]
+    node.name = plan.kname
+    ast.fix_missing_locations(node)
+    nd.container.remove(node)
+    container.append(node)
+    for (parent, v, how, kc) in rewrites:
+        _apply_ref(plan, parent, v, how, kc, pure)
+    _fix_imports(pkg, plan, hm)
+    return True
